@@ -498,7 +498,7 @@ func (p *psGen) op(tier string) PsOp {
 	case r < 78:
 		n := 2 + p.g.R.Intn(5)
 		if tier == "thorough" && p.g.Chance(0.1) {
-			n = 200 + p.g.R.Intn(800)
+			n = 100 + p.g.R.Intn(400)
 		}
 		o := PsOp{Mode: "burst"}
 		pub, ch := p.any(), p.name()
